@@ -47,18 +47,95 @@ func main() {
 		*tier = "quick"
 	}
 	seed, _ := strconv.Atoi(os.Getenv("VERIF_SEED"))
-	switch {
-	case l1Props[prop]:
-		os.Exit(runL1(prop, *tier, *solver, seed))
-	case len(kernelPlan(prop, *tier)) > 0 || len(l2Plan(prop, *tier)) > 0:
-		os.Exit(runKernels(prop, *tier, *solver, seed))
-	default:
+	var evs []*eng.Evidence
+	exit := 0
+	worse := func(x int) {
+		// 1 (violation) dominates 2 (inconclusive) dominates 0
+		if x == 1 || (x == 2 && exit == 0) {
+			exit = x
+		}
+	}
+	ran := false
+	if l1Props[prop] {
+		ev, x := runL1(prop, *tier, *solver, seed)
+		evs = append(evs, ev)
+		worse(x)
+		ran = true
+	}
+	if len(kernelPlan(prop, *tier)) > 0 || len(l2Plan(prop, *tier)) > 0 {
+		ksolver := *solver
+		if !solverSet(os.Args[2:]) {
+			ksolver = "cvc5" // sequential kernels: cvc5 is markedly faster than z3 on these formulas
+		}
+		ev, x := runKernels(prop, *tier, ksolver, seed)
+		evs = append(evs, ev)
+		worse(x)
+		ran = true
+	}
+	if !ran {
 		fmt.Printf("INCONCLUSIVE property=%s no check registered\n", prop)
 		os.Exit(2)
 	}
+	ev := mergeEvidence(evs)
+	if ev != nil {
+		if err := eng.WriteEvidence(filepath.Join(verifDir, "evidence"), ev); err != nil {
+			fmt.Println("cannot write evidence:", err)
+			os.Exit(2)
+		}
+	}
+	os.Exit(exit)
 }
 
-func runL1(prop, tier, solver string, seed int) int {
+func solverSet(args []string) bool {
+	for _, a := range args {
+		if strings.HasPrefix(a, "--solver") || strings.HasPrefix(a, "-solver") {
+			return true
+		}
+	}
+	return false
+}
+
+// mergeEvidence combines the per-layer evidence of one property.
+func mergeEvidence(evs []*eng.Evidence) *eng.Evidence {
+	var out *eng.Evidence
+	for _, ev := range evs {
+		if ev == nil {
+			continue
+		}
+		if out == nil {
+			out = ev
+			continue
+		}
+		out.WallS += ev.WallS
+		out.Violations += ev.Violations
+		out.Assumptions = append(out.Assumptions, ev.Assumptions...)
+		for k, v := range ev.Coverage {
+			switch k {
+			case "evaluations", "distinct_nontrivial", "obligations", "discharged", "traces_validated_against_impl":
+				a, _ := out.Coverage[k].(int)
+				b, _ := v.(int)
+				out.Coverage[k] = a + b
+			case "samples":
+				a, _ := out.Coverage[k].([]interface{})
+				b, _ := v.([]interface{})
+				out.Coverage[k] = append(a, b...)
+			case "explanation", "rule":
+				a, _ := out.Coverage[k].(string)
+				b, _ := v.(string)
+				out.Coverage[k] = a + " || L2/K layer: " + b
+			case "functions_encoded":
+				out.Coverage["functions_encoded_l2"] = v
+			default:
+				if _, ok := out.Coverage[k]; !ok {
+					out.Coverage[k] = v
+				}
+			}
+		}
+	}
+	return out
+}
+
+func runL1(prop, tier, solver string, seed int) (*eng.Evidence, int) {
 	t0 := time.Now()
 	timeout := 600000
 	if tier == "thorough" {
@@ -67,7 +144,7 @@ func runL1(prop, tier, solver string, seed int) int {
 	run, _, err := eng.RunL1(prop, tier, solver, timeout)
 	if err != nil {
 		fmt.Printf("INCONCLUSIVE property=%s load/build failed: %v\n", prop, err)
-		return 2
+		return nil, 2
 	}
 	findings := eng.LoadFindings(filepath.Join(verifDir, "known_findings.json"))
 	exit := 0
@@ -166,13 +243,9 @@ func runL1(prop, tier, solver string, seed int) int {
 		},
 		Assumptions: assumptionsL1,
 	}
-	if err := eng.WriteEvidence(filepath.Join(verifDir, "evidence"), ev); err != nil {
-		fmt.Println("cannot write evidence:", err)
-		return 2
-	}
-	fmt.Printf("property=%s tier=%s cubes=%d queries=%d obligations=%d discharged=%d nontrivial=%d violations=%d wall=%.1fs exit=%d\n",
+	fmt.Printf("property=%s layer=L1 tier=%s cubes=%d queries=%d obligations=%d discharged=%d nontrivial=%d violations=%d wall=%.1fs exit=%d\n",
 		prop, tier, len(run.Cubes), queries, obligations, discharged, nontrivial, violations, time.Since(t0).Seconds(), exit)
-	return exit
+	return ev, exit
 }
 
 var trustedBaseL1 = []string{
